@@ -9,6 +9,7 @@
 
 using namespace vf;
 
+static int g_maxM = 1000000;
 static int g_maxN = 12;
 
 static Verdict F(const std::string &key, const std::string &msg) { return Verdict::fail(key, msg); }
@@ -19,6 +20,7 @@ static Case gen_c16() {
     c.entry = "ForestIndex";
     GenOpts o;
     o.maxN = g_maxN;
+    o.maxM = g_maxM;
     c.g = gen_graph_raw(o, WDom::Unit);
     return c;
 }
@@ -79,6 +81,7 @@ static Case gen_c13() {
     c.entry = "greedy_fvs";
     GenOpts o;
     o.maxN = g_maxN;
+    o.maxM = g_maxM;
     c.g = gen_graph_raw(o, WDom::Unit);
     // extra pendant trees (repeated clean-up)
     if (c.g.n > 0 && coin(60)) {
@@ -166,6 +169,7 @@ static Case gen_c12() {
     c.wtype = coin(30) ? "int" : "double";
     GenOpts o;
     o.maxN = g_maxN;
+    o.maxM = g_maxM;
     o.tie_bias = 80;
     c.g = gen_graph_raw(o, c.wtype == "int" ? WDom::ExactInt : WDom::Exact);
     return c;
@@ -268,6 +272,7 @@ static Case gen_c14() {
     c.wtype = coin(30) ? "int" : "double";
     GenOpts o;
     o.maxN = g_maxN;
+    o.maxM = g_maxM;
     c.g = gen_graph_raw(o, c.wtype == "int" ? WDom::ExactInt : WDom::Exact);
     return c;
 }
@@ -402,6 +407,7 @@ static Verdict check_c14(const Case &c) { return c.wtype == "int" ? check_c14_t<
 
 int main(int argc, char **argv) {
     if (getenv("VERIF_MAXN")) g_maxN = atoi(getenv("VERIF_MAXN"));
+    if (getenv("VERIF_MAXM")) g_maxM = atoi(getenv("VERIF_MAXM"));
     std::map<std::string, Prop> props;
     props["C12"] = Prop{gen_c12, check_c12};
     props["C13"] = Prop{gen_c13, check_c13};
